@@ -40,7 +40,7 @@ for pid in sorted(PROPS):
     if sp.get('assumptions'): A("* Assumptions: " + ' / '.join(sp['assumptions']))
     A("")
 A("### 0.9 Seeded changes and the checks that catch them\n")
-A("Each change was written by a fresh sub-agent that was given only the text of one property (from the second round on also a one-line description of the changes that existed already) and its own scratch worktree; it compiles, adds no failing test to the suite, and comes with a demonstration (`demo.rs`) that fails with the change and passes without - all three re-confirmed here in a scratch worktree (`lib/confirm_seed.py`) before the change was stored.  `lib/seedtest.sh seeded/<id>/patch.diff Cxx` replays one; `lib/seed_regress.sh` replays all of them (every stored change is reported as VIOLATION by the check of its property except those whose line below says NOT detected - two changes of the seventh round, C01-m9 and C16-m7, which the quick tier misses and for which no strengthening was built in the time left; they are kept so that the miss is visible).  *added after miss* = the check did not report the change (or only as a broken correspondence) at first and was strengthened.  %d changes:\n" % len(det))
+A("Each change was written by a fresh sub-agent that was given only the text of one property (from the second round on also a one-line description of the changes that existed already) and its own scratch worktree; it compiles, adds no failing test to the suite, and comes with a demonstration (`demo.rs`) that fails with the change and passes without - all three re-confirmed here in a scratch worktree (`lib/confirm_seed.py`) before the change was stored.  `lib/seedtest.sh seeded/<id>/patch.diff Cxx` replays one; `lib/seed_regress.sh` replays all of them (every stored change is reported as VIOLATION by the check of its property except those whose line below says NOT detected - one change of the seventh round, C16-m7, which the quick tier misses and for which no strengthening was built in the time left; it is kept so that the miss is visible).  *added after miss* = the check did not report the change (or only as a broken correspondence) at first and was strengthened.  %d changes:\n" % len(det))
 A("| change | caught by |\n|---|---|")
 for s, d in sorted(det.items()): A("| %s | %s |" % (s, d))
 A("")
